@@ -370,6 +370,9 @@ class Memory():
 
         self.nbr_of_mems = 0
         self._getting_count = False
+        # A new enumeration starts from scratch, also for the 1-wire memories
+        # that a previous (interrupted) enumeration was still waiting for
+        self._ow_mems_left_to_update = []
 
         logger.debug('Requesting number of memories')
         pk = CRTPPacket()
